@@ -399,7 +399,7 @@ func (sc *scn) atGate(in *inst, ev *retx) bool {
 		return false
 	}
 	sc.hmu.Lock()
-	hold := ev.nOK && sc.holdSet[holdKey{in, ev.n}] && sc.holdCh != nil
+	hold := ev.nOK && sc.holdSet[holdKey{in, ev.n}] && sc.holdCh != nil && !sc.released
 	ch := sc.holdCh
 	if hold {
 		sc.heldTotal++
@@ -462,6 +462,10 @@ func run(c *vf.Case) {
 		}
 		sc.release()
 		synctest.Wait()
+		// anything emitted outside a round (after quiescence) is caught by an empty round
+		sc.beginRound()
+		sc.endStep()
+		sc.endRound()
 		if !sc.closed {
 			sc.closeAll()
 		}
@@ -988,9 +992,6 @@ func (sc *scn) beginRound() {
 	sc.rmu.Unlock()
 	sc.stepBounds = nil
 	sc.curStep.Store(0)
-	for _, in := range sc.insts {
-		in.g.mark()
-	}
 }
 
 func (sc *scn) endStep() {
@@ -1198,8 +1199,8 @@ func (sc *scn) readerPlans(Rn int, perReader int, holdFirst map[*inst][]int64) [
 	r := sc.r
 	out := make([][]*compound, Rn)
 	// NACKs that start with a held number
-	for in, ts := range holdFirst {
-		for _, t := range ts {
+	for _, in := range sc.insts {
+		for _, t := range holdFirst[in] {
 			ns := sc.concNack(in, []int64{t})
 			if cp := sc.buildCompound([]nackSpec{ns}); cp != nil {
 				k := r.Intn(Rn)
